@@ -44,4 +44,32 @@ if ! go build "${MODFILE[@]}" "${OVERLAY[@]}" -o "$BIN" "./cmd/$lc" 2> "$WORK/bu
   exit 2
 fi
 export VERIF_WORK="$WORK"
-exec "$BIN" -tier "$TIER" "$@"
+"$BIN" -tier "$TIER" "$@"
+rc=$?
+# Supplementary, non-deciding: on the thorough tier the concurrency properties also get a
+# free-running pass of real goroutines on the UNINSTRUMENTED code under Go's race detector
+# (DESIGN.md §3.5 / §11). A report of the detector is a violation too (it has no false positives).
+if [ $rc -eq 0 ] && [ "$TIER" = thorough ] && [ $# -eq 0 ] && [ -f "freerun/${lc}_test.go" ]; then
+  OUT=${VERIF_OUT:-$VERIF}
+  go test "${MODFILE[@]}" -race -vet=off -count=1 -run "Test${ID}\$" ./freerun/ > "$WORK/freerun.log" 2>&1
+  frc=$?
+  races=$(grep -c "WARNING: DATA RACE" "$WORK/freerun.log")
+  python3 - "$OUT/evidence/$ID.json" "$frc" "$races" <<'PY'
+import json,sys
+p,frc,races=sys.argv[1],int(sys.argv[2]),int(sys.argv[3])
+try:
+    e=json.load(open(p)); e["coverage"]["free_running_race_pass"]={"command":"go test -race ./freerun/ (uninstrumented golib, real goroutines)","exit":frc,"data_race_reports":races,"role":"supplementary, not deciding"}
+    json.dump(e,open(p,"w"),indent=1)
+except Exception as ex:
+    print("could not annotate evidence:",ex)
+PY
+  if [ "$races" -gt 0 ] || [ $frc -ne 0 ]; then
+    mkdir -p "$OUT/replays"; cp "$WORK/freerun.log" "$OUT/replays/$ID-freerun.log"
+    grep -m3 -A12 "WARNING: DATA RACE\|^--- FAIL\|^    .*_test.go" "$WORK/freerun.log" | head -40
+    echo "VIOLATION property=$ID replay=$OUT/replays/$ID-freerun.log"
+    rc=1
+  else
+    echo "$ID free-running -race pass: clean"
+  fi
+fi
+exit $rc
